@@ -252,10 +252,18 @@ func c03Run(r *runCtx, id string, f []string) {
 		r.fail(id, "empty-error-list", "Compile returns an error with no message on %s", shortSrc(src))
 		return
 	}
-	b := compileOnce(src)
-	if b.outcome != a.outcome || b.hasObj != a.hasObj || b.hasErr != a.hasErr || b.obj != a.obj {
-		r.fail(id, "not-deterministic", "compiling twice gives different results on %s: first %s second %s", shortSrc(src), a.obj, b.obj)
-		return
+	// "the same source twice" means any two times: what depends on the order a map is walked in
+	// shows in a fraction of the compiles only, so short sources are compiled a dozen times
+	again := 1
+	if len(src) < 4096 {
+		again = 12
+	}
+	for k := 0; k < again; k++ {
+		b := compileOnce(src)
+		if b.outcome != a.outcome || b.hasObj != a.hasObj || b.hasErr != a.hasErr || b.obj != a.obj {
+			r.fail(id, "not-deterministic", "compiling again (%d) gives a different result on %s: first %s later %s", k+2, shortSrc(src), a.obj, b.obj)
+			return
+		}
 	}
 	if a.hasObj {
 		r.stat("compiled")
@@ -288,6 +296,14 @@ func c03Doubling(n int) []string {
 }
 
 var c03Hand = []string{
+	// capture groups named like numbers, inside decorators (whose scope is copied from a map) and
+	// outside: whatever is decided, it is decided the same way every time
+	"counter c by v\ndef d {\n  /(a)(?P<1>b)/ {\n    next\n  }\n}\n@d {\n  c[$1]++\n}\n",
+	"counter c by v\n/(a)(?P<1>b)/ {\n  c[$1]++\n}\n", "counter c by v\n/(?P<2>a)(b)/ {\n  c[$2]++\n}\n",
+	"counter c by v\ndef d {\n  /(?P<x>a)(?P<y>b)(c)/ {\n    next\n  }\n}\n@d {\n  c[$x]++\n  c[$2]++\n  c[$3]++\n}\n",
+	"counter c by v\ndef d {\n  /(?P<3>a)(?P<1>b)(?P<2>c)/ {\n    next\n  }\n}\n@d {\n  c[$1]++\n  c[$2]++\n  c[$3]++\n}\n",
+	"counter c by v\ndef d {\n  /(?P<0>a)/ {\n    next\n  }\n}\n@d {\n  c[$0]++\n}\n",
+	"counter c by v\ndef o {\n  /(?P<k>x)/ {\n    next\n  }\n}\ndef d {\n  @o {\n    /(a)(?P<k>b)/ {\n      next\n    }\n  }\n}\n@d {\n  c[$k]++\n  c[$1]++\n}\n",
 	// zero divisors of every spelling and type, with constant and non-constant dividends, alone and
 	// nested in larger expressions
 	"gauge g\n/(\\d+)/ { g = $1 / 0.0 }\n", "gauge g\n/(\\d+)/ { g = $1 % 0.0 }\n", "gauge g\n/(\\d+)/ { g = 1 + $1 / .0 }\n", "gauge g\n/(\\d+)/ { g = int($1 / 0e0) }\n",
